@@ -123,7 +123,11 @@ func (oa *orderAnalysis) analyseRange(pk *packages.Package, fd *ast.FuncDecl, fu
 						if usesKey(l.Index) {
 							continue // other map indexed by the current key
 						}
-						// indexed by something else (e.g. the value): last writer wins when two iterations collide
+						// indexed by something else: when two iterations collide the last writer wins - unless every writer
+						// stores the same thing, a value built from the index alone (m[id] = T{"@id": id}) or a constant
+						if i < len(x.Rhs) && x.Tok == token.ASSIGN && determinedByIndex(info, x.Rhs[i], l.Index) {
+							continue
+						}
 						addEscape(l.Pos(), "an outer map is written under a key that is not the iteration key")
 						continue
 					}
@@ -310,6 +314,37 @@ func sortedAfter(info *types.Info, body *ast.BlockStmt, rs *ast.RangeStmt, acc t
 			}
 		}
 		return true
+	})
+	return ok
+}
+
+// determinedByIndex: the stored value is a function of the index expression alone: it contains no call and every
+// variable it mentions is mentioned by the index (m[id] = T{"@id": id}; m[k] = true).
+func determinedByIndex(info *types.Info, val, idx ast.Expr) bool {
+	inIdx := map[types.Object]bool{}
+	ast.Inspect(idx, func(n ast.Node) bool {
+		if id, ok := n.(*ast.Ident); ok {
+			if v, ok := info.Uses[id].(*types.Var); ok {
+				inIdx[v] = true
+			}
+		}
+		return true
+	})
+	ok := true
+	ast.Inspect(val, func(n ast.Node) bool {
+		switch x := n.(type) {
+		case *ast.CallExpr:
+			if tv, isT := info.Types[x.Fun]; !(isT && tv.IsType()) {
+				ok = false
+			}
+		case *ast.Ident:
+			if v, isVar := info.Uses[x].(*types.Var); isVar && !inIdx[v] {
+				ok = false
+			}
+		case *ast.FuncLit:
+			ok = false
+		}
+		return ok
 	})
 	return ok
 }
